@@ -12,6 +12,7 @@ require (
 	github.com/cosmos/cosmos-sdk v0.50.10
 	github.com/cosmos/gogoproto v1.7.0
 	github.com/ethereum/go-ethereum v1.10.26
+	golang.org/x/tools v0.22.0
 )
 
 require (
